@@ -151,6 +151,19 @@ def envNodeInfo (ni : NodeInfo) (f : String) : PyVal :=
   else if f = "task_path" then optPath ni.taskPath
   else .none
 
+/-- Where an argument of a task function sits: the module (`None` for tasks defined outside a file), its directory, the
+task's name, the parameter and the position inside the parameter's value. -/
+structure ArgSite where
+  modulePath : Option Str
+  moduleDir : Str
+  taskName : Str
+  param : Str
+  treePath : List PyVal
+
+/-- The `NodeInfo` pytask attaches to the node collected at that site, for dependencies and products alike
+(`collect.py:355-360` → `collect_utils.py:84-92, 228-250, 253-276`): the task is identified by its *module path*. -/
+def nodeInfoOfArg (s : ArgSite) : NodeInfo := ⟨s.param, s.treePath, s.taskName, s.modulePath⟩
+
 def sigTask (base path : Str) : Str := sigOf sha Generated.sigTaskFields (envTask base path)
 def sigTaskWithoutPath (name : Str) : Str :=
   sigOf sha Generated.sigTaskWithoutPathFields (envTaskWithoutPath name)
